@@ -60,7 +60,39 @@ func runC09(p *core.Prog, r *core.Report, tier string) {
 	}
 	// (3) get-or-create
 	if f := r.Need(p, tsm1, "partition.write"); f != nil {
-		core.RuleRecheckUnderLock(r, f, "recheck-under-lock", core.LookupField(pk.Types, "partition", "store"))
+		// the rule is about whichever function inserts into the map: partition.write
+		// today, a helper it calls after an extraction
+		mapF := core.LookupField(pk.Types, "partition", "store")
+		inserts := func(fn *core.Func) bool {
+			hit := false
+			if fn.Decl.Body == nil {
+				return false
+			}
+			ast.Inspect(fn.Decl.Body, func(x ast.Node) bool {
+				if as, ok := x.(*ast.AssignStmt); ok {
+					for _, l := range as.Lhs {
+						if ix, ok := ast.Unparen(l).(*ast.IndexExpr); ok && core.FieldOf(fn.Info(), ix.X) == mapF {
+							hit = true
+						}
+					}
+				}
+				return true
+			})
+			return hit
+		}
+		if inserts(f) {
+			core.RuleRecheckUnderLock(r, f, "recheck-under-lock", mapF)
+		} else {
+			n := 0
+			for _, c := range core.AllCalls(f.Info(), f.Decl.Body, func(*types.Info, *ast.CallExpr) bool { return true }) {
+				if h := p.FuncOf(core.Callee(f.Info(), c)); h != nil && h.Pkg == f.Pkg && inserts(h) {
+					n++
+					r.Saw(h)
+					core.RuleRecheckUnderLock(r, h, "recheck-under-lock", mapF)
+				}
+			}
+			r.Check(n >= 1, "recheck-under-lock", f.String(), "insert:absent", f.Pos(), "partition.write (or a helper it calls) inserts the new entry into partition.store")
+		}
 	}
 
 	// (4) limit before store
@@ -72,9 +104,13 @@ func runC09(p *core.Prog, r *core.Report, tier string) {
 		if r.Check(len(limErr) == 1, rule, f.String(), "limit-error:absent", f.Pos(), "the size-limit rejection exists") {
 			guards := g.EnclosingGuards(limErr[0])
 			if r.Check(len(guards) >= 1, rule, f.String(), "limit-guard:absent", g.Line(limErr[0]), "the rejection is conditional") {
-				// the innermost guard is the limit test; effects must lie behind its other branch
+				// the guards are the edges every path to the rejection takes (one edge for
+				// `a && b`, several for nested ifs); their condition nodes are the limit test
+				gate := map[*core.Node]bool{}
+				for _, e := range guards {
+					gate[e.From] = true
+				}
 				guard := guards[len(guards)-1]
-				other := guard.Sibling()
 				// the limit test reads maxSize and the current size
 				maxSize := core.LookupField(pk.Types, "Cache", "maxSize")
 				readsMax, readsSize := false, false
@@ -99,18 +135,40 @@ func runC09(p *core.Prog, r *core.Report, tier string) {
 					}
 					return true
 				})
-				ast.Inspect(guard.Cond, func(x ast.Node) bool {
-					if id, ok := x.(*ast.Ident); ok && limVar[info.Uses[id]] {
-						readsMax = true
-						readsSize = true
+				for _, ge := range guards {
+					cond := ge.Cond
+					if id, ok := ast.Unparen(cond).(*ast.Ident); ok { // `over := n > limit; if over`
+						cond = core.ResolveLocal(info, f.Decl.Body, id)
 					}
-					if se, ok := x.(*ast.SelectorExpr); ok && core.FieldOf(info, se) == maxSize {
-						readsMax = true
-					}
-					return true
-				})
+					ast.Inspect(cond, func(x ast.Node) bool {
+						if id, ok := x.(*ast.Ident); ok && limVar[info.Uses[id]] {
+							readsMax = true
+							readsSize = true
+						}
+						if se, ok := x.(*ast.SelectorExpr); ok && core.FieldOf(info, se) == maxSize {
+							readsMax = true
+						}
+						return true
+					})
+				}
 				r.Check(readsMax && readsSize, rule, f.String(), "limit-test-operands", g.Line(guard.From), "the limit test compares values derived from Cache.maxSize and Cache.Size()")
-				reach := g.ReachFromEntry(nil, func(e *core.Edge) bool { return e == other })
+				// effects are reachable neither without evaluating the limit test nor
+				// from the rejecting branch (the innermost guard edge: no further test behind it)
+				reach := g.ReachFromEntry(func(n *core.Node) bool { return gate[n] }, nil)
+				for _, ge := range guards {
+					behind := g.Reach([]*core.Node{ge.To}, nil, nil)
+					inner := true
+					for n := range behind {
+						if gate[n] {
+							inner = false
+						}
+					}
+					if inner {
+						for n := range behind {
+							reach[n] = true
+						}
+					}
+				}
 				effects := g.Select(core.AnyOf(g.Calling(call("tsdb/engine/tsm1.storer.write")), g.Calling(call("tsdb/engine/tsm1.Cache.increaseSize"))))
 				r.Check(len(effects) >= 3, rule, f.String(), "effects:count", f.Pos(), fmt.Sprintf("%d store.write/increaseSize sites (>= 3 confirmed by reading)", len(effects)))
 				for _, n := range effects {
